@@ -272,7 +272,12 @@ pub fn cache_async(attr: TokenStream, item: TokenStream) -> TokenStream {
     // Detect Result type and extract inner type if needed
     let (is_result, _cache_value_type) = {
         let s = quote!(#ret_type).to_string().replace(' ', "");
-        if s.starts_with("Result<") || s.starts_with("std::result::Result<") {
+        if s.starts_with("Result<")
+            || s.starts_with("std::result::Result<")
+            || s.starts_with("::std::result::Result<")
+            || s.starts_with("core::result::Result<")
+            || s.starts_with("::core::result::Result<")
+        {
             // Extract the Ok type from Result<T, E>
             // For simplicity, we'll use the full return type and let the compiler infer
             // But we need to specify that the cache stores the inner T, not Result<T, E>
